@@ -267,6 +267,13 @@ func (cf *ContractFile) directive(cur **FuncContract, pkg, body, path string, ln
 	case "cuts":
 		fc.Cuts = append(fc.Cuts, splitNames(rest)...)
 	case "candidates":
+		cmode := ""
+		if strings.HasPrefix(rest, "@") {
+			if j := strings.IndexAny(rest, " \t"); j > 0 {
+				cmode = rest[1:j]
+				rest = strings.TrimSpace(rest[j+1:])
+			}
+		}
 		for _, t := range strings.Split(rest, ";") {
 			t = strings.TrimSpace(t)
 			if t == "" {
@@ -275,6 +282,9 @@ func (cf *ContractFile) directive(cur **FuncContract, pkg, body, path string, ln
 			c, err := mkClause(t)
 			if err != nil {
 				return err
+			}
+			if cmode != "" {
+				c.Mode = cmode
 			}
 			fc.Candidates = append(fc.Candidates, c)
 		}
